@@ -573,7 +573,11 @@ pub fn run_c12(run: &Run) {
         if supported.contains(&m) || m == 9 {
             continue; // 9 in value position is the object-end marker, not a type: not judged
         }
-        let tails: Vec<Vec<u8>> = vec![vec![], vec![0; 8], vec![0, 1, b'a', 5, 0, 0, 9]];
+        // nothing, filler, and the exact payloads the AMF0 specification gives the unsupported types: reference (u16),
+        // date (double + s16), long string / XML document (u32 length + text), typed object (class name + members),
+        // so that a decoder which "also understands" one of them yields a value with nothing left over
+        let tails: Vec<Vec<u8>> = vec![vec![], vec![0; 8], vec![0, 1, b'a', 5, 0, 0, 9], vec![0, 0], vec![0, 0, 0, 0], vec![0, 0, 0, 1, b'x'], vec![0; 10],
+            vec![0, 1, b'c', 0, 0, 9], vec![0, 1, b'c', 0, 1, b'a', 5, 0, 0, 9], vec![0, 0, 9], vec![0], vec![0, 0, 0, 2, 0xC3, 0xA9]];
         for tail in tails.iter() {
             let mut top = vec![m];
             top.extend(tail);
